@@ -265,13 +265,20 @@ func checkBag(c BagCase, st *stats.Collector) error {
 			}
 		}()
 		// the bag arrives as a sized, seekable in-memory reader, as a stream that offers nothing but Read, or
-		// through a small bufio.Reader; the MCAP goes to a bytes.Buffer or to a Write-only destination
+		// through a small bufio.Reader or a pipe; the MCAP goes to a bytes.Buffer or to a Write-only destination
 		var src io.Reader = bytes.NewReader(bag)
-		switch len(bag) % 3 {
+		switch len(bag) % 4 {
 		case 1:
 			src = struct{ io.Reader }{bytes.NewReader(bag)}
 		case 2:
 			src = bufio.NewReaderSize(bytes.NewReader(bag), 64)
+		case 3:
+			// the read end of a pipe (`cat x.bag | tool`): an *os.File, so it has Seek and Stat, but cannot seek
+			if pr, pw, perr := os.Pipe(); perr == nil {
+				go func() { _, _ = pw.Write(bag); pw.Close() }()
+				defer pr.Close()
+				src = pr
+			}
 		}
 		var dst io.Writer = &out
 		if len(bag)%2 == 1 {
